@@ -20,6 +20,7 @@ func genMore() {
 	genMainFacts()
 	genLoaderFacts()
 	genNarrowFacts()
+	genBlockFacts()
 }
 
 type methInfo struct {
